@@ -2,7 +2,7 @@
   C01.3 — the compiler and the backtracking VM agree with the reference semantics on a
   fragment of jq with closures, recursion and error handling (Model/MiniVM.lean): identity,
   constants, pipe, comma, `.[]`, `.name`, `empty`, `[q]`, `error`, `try b`, `try b catch h`,
-  `if c then a else b end`, `l // r`, one-filter-parameter functions `def f(g): …` with arbitrary recursion, the parameter `g`,
+  `if c then a else b end`, `l // r`, `$x`, `src as $x | body`, one-filter-parameter functions `def f(g): …` with arbitrary recursion, the parameter `g`,
   calls `f(a)` whose argument is passed as a closure.  What the fragment takes from the host
   library — `funcIndex2` behind `.name` and the texts of the two error messages `catch` can
   receive — is a parameter (`IterMsg`): the theorems hold for every choice of it.
@@ -28,9 +28,10 @@ variable [IterMsg]
     `p` inside the scope entered at `e` of function `g`; start the machine there with ANY input
     `v` on ANY stack `S`, ANY pending forks `F`, registers `R`, offset `o` above the scope's static
     registers, and frames `fr` whose top is that scope and which — together with the registers
-    in a set `P` lying below the segment's own — realise the closure environment `ρ` (`EnvRel`:
+    in a set `P` lying below the segment's own — realise the environment `ρ` (`EnvOK`:
     walking `outerindex` finds the frame of `g`, whose register 1 holds the closure: the code of
-    the argument and the frame it was created in, recursively).  Then, if the reference evaluation
+    the argument and the frame it was created in, recursively; and every variable in scope sits
+    in its register of the current frame, holding the value the reference environment gives it).  Then, if the reference evaluation
     with fuel `n` does not run out of fuel, the machine `Yields` exactly its outputs: for each
     output `w` in order it reaches the exit `p + len` with `w :: S` on the stack, the same frames,
     registers changed only in the scope's own static registers and above `o` (never in `P`),
@@ -39,11 +40,12 @@ variable [IterMsg]
     pending; after the last output it fails into `F` carrying the error the reference
     evaluation ends with (or none). -/
 theorem compile_yields {code defs entry nf} (hfun : FuncsOK code defs entry nf)
-    (n : Nat) (q : Q) (g : Option Name) (e p : Nat) (hep : e ≤ p) (hseg : Seg code p (compile entry g e p q))
-    (hcl : q.Closed nf) (ρ : Clo) (v : V) (S : List SV) (F : List Fork) (R : Regs) (fr : List Frame) (o : Nat) (cp : CP)
-    (P : Nat → Prop) (htop : TopIs fr e) (hge : scopeOf entry g ≤ e) (hpar : q.HasParam → ρ ≠ .none)
+    (n : Nat) (q : Q) (g : Ctx) (e p : Nat) (hep : e ≤ p) (hseg : Seg code p (compile entry g e p q))
+    (hcl : q.Closed nf (g.vars.map (·.1))) (ρ : Env) (v : V) (S : List SV) (F : List Fork) (R : Regs) (fr : List Frame)
+    (o : Nat) (cp : CP)
+    (P : Nat → Prop) (htop : TopIs fr e) (hge : scopeOf entry g ≤ e) (hpar : q.HasParam → ρ.clo ≠ .none)
     (hP : ∀ a, P a → a < base fr + (p - e))
-    (henv : EnvRel code entry nf P R fr (fr.length - 1) ρ g)
+    (henv : EnvOK code entry nf P R fr ρ g)
     (hoff : base fr + (p + (compile entry g e p q).length - e) ≤ o) (hnd : ND (eval defs n g ρ q v).stop) :
     Yields code (Own (base fr) e p (compile entry g e p q).length) P o fr F (p + (compile entry g e p q).length) S
       (.run p (.v v :: S) F false none R fr o cp) (eval defs n g ρ q v).outs (eval defs n g ρ q v).stop.toErr :=
@@ -66,12 +68,12 @@ example : exProg.WF :=
     order, and then stops with the reference's uncaught error if there is one (`Next` returns
     it) or with none (`Next` returns `(nil, false)`). -/
 theorem compile_refines_spec_fragment (p : Prog) (hwf : p.WF) (v : V) (n : Nat)
-    (hnd : ND (eval p.defsFn n none .none p.main v).stop) :
+    (hnd : ND (eval p.defsFn n ⟨none, []⟩ ⟨.none, []⟩ p.main v).stop) :
     Run (compileProg p) (initCfg (compileProg p) v)
-      (eval p.defsFn n none .none p.main v).outs (eval p.defsFn n none .none p.main v).stop.toErr :=
+      (eval p.defsFn n ⟨none, []⟩ ⟨.none, []⟩ p.main v).outs (eval p.defsFn n ⟨none, []⟩ ⟨.none, []⟩ p.main v).stop.toErr :=
   prog_refines p hwf v n hnd
 
-example : ND (@eval exMsg exProg.defsFn 40 none .none exProg.main exInput).stop := by decide
+example : ND (@eval exMsg exProg.defsFn 40 ⟨none, []⟩ ⟨.none, []⟩ exProg.main exInput).stop := by decide
 example : exTry.WF ∧ exTryCont.WF :=
   ⟨⟨by simp [exTry], by simp [Q.Closed, exTry], by simp [Q.HasParam, exTry]⟩,
    ⟨by simp [exTryCont], by simp [Q.Closed, exTryCont], by simp [Q.HasParam, exTryCont]⟩⟩
@@ -81,10 +83,10 @@ example : exTry.WF ∧ exTryCont.WF :=
     larger amount — it finishes with exactly the reference outputs and the reference error.
     In particular the machine never gets stuck (no Go panic) on compiled code. -/
 theorem compile_refines_spec_fragment_exec (p : Prog) (hwf : p.WF) (v : V) (n : Nat)
-    (hnd : ND (eval p.defsFn n none .none p.main v).stop) :
+    (hnd : ND (eval p.defsFn n ⟨none, []⟩ ⟨.none, []⟩ p.main v).stop) :
     ∃ fuel, ∀ k, runProg p (fuel + k) v =
-      .finished (eval p.defsFn n none .none p.main v).outs
-        ((eval p.defsFn n none .none p.main v).stop.toErr.map .plain) := by
+      .finished (eval p.defsFn n ⟨none, []⟩ ⟨.none, []⟩ p.main v).outs
+        ((eval p.defsFn n ⟨none, []⟩ ⟨.none, []⟩ p.main v).stop.toErr.map .plain) := by
   obtain ⟨fuel, h⟩ := run_exec (prog_refines p hwf v n hnd) []
   exact ⟨fuel, fun k => exec_mono _ _ _ _ _ (by simpa using h) k⟩
 
